@@ -7,6 +7,7 @@ import (
 	"fmt"
 	"strconv"
 	"strings"
+	"sync"
 	"testing"
 	"time"
 
@@ -578,6 +579,13 @@ func TestC17(t *testing.T) {
 		}
 		a, b2 := gen("a"), gen("b")
 		zone := rapid.SampledFrom([]string{"", "UTC", "+05:30", "-12:00", "America/New_York"}).Draw(rt, "zone")
+		if rapid.IntRange(0, 9).Draw(rt, "edge") < 4 {
+			// values within two seconds of a change of a named zone's offset, written as local time of that zone or
+			// as an instant with some offset, under that zone: uniformly drawn instants never come near one
+			zone = rapid.SampledFrom(transitionZones).Draw(rt, "tzone")
+			a, b2 = genNearTransition(rt, zone, "a"), genNearTransition(rt, zone, "b")
+			ev.Label("random:near_offset_change")
+		}
 		tz := rapid.IntRange(0, 9).Draw(rt, "tz") < 7
 		var c DTCase
 		switch rapid.IntRange(0, 2).Draw(rt, "shape") {
@@ -602,7 +610,69 @@ func TestC17(t *testing.T) {
 		ev.Eval(string(key), !facts.excluded)
 		ev.Sample("random:"+facts.class, c)
 		ev.Check(rt, "c17.datetime", c, v)
+		if rapid.IntRange(0, 3).Draw(rt, "pz") == 0 {
+			ev.Check(rt, "c17.processzone", c, checkProcessZone(c))
+		}
 	})
+}
+
+var transitionZones = []string{"America/New_York", "Australia/Sydney", "Europe/London", "Pacific/Auckland", "Pacific/Apia", "Australia/Lord_Howe", "America/St_Johns", "Asia/Tehran"}
+
+var (
+	transitionsMu    sync.Mutex
+	transitionsCache = map[string][]time.Time{}
+)
+
+// zoneTransitions: the instants (to the second) between 2005 and 2025 at which the offset of the zone changes.
+func zoneTransitions(zone string) []time.Time {
+	transitionsMu.Lock()
+	defer transitionsMu.Unlock()
+	if ts, ok := transitionsCache[zone]; ok {
+		return ts
+	}
+	loc, err := time.LoadLocation(zone)
+	if err != nil {
+		panic(err)
+	}
+	off := func(t time.Time) int { _, o := t.In(loc).Zone(); return o }
+	var out []time.Time
+	t := time.Date(2005, 1, 1, 0, 0, 0, 0, time.UTC)
+	for end := time.Date(2025, 1, 1, 0, 0, 0, 0, time.UTC); t.Before(end); t = t.Add(24 * time.Hour) {
+		lo, hi := t, t.Add(24*time.Hour)
+		if off(lo) == off(hi) {
+			continue
+		}
+		for hi.Sub(lo) > time.Second {
+			mid := lo.Add(hi.Sub(lo) / 2).Truncate(time.Second)
+			if off(mid) == off(lo) {
+				lo = mid
+			} else {
+				hi = mid
+			}
+		}
+		out = append(out, hi)
+	}
+	transitionsCache[zone] = out
+	return out
+}
+
+func genNearTransition(rt *rapid.T, zone, l string) string {
+	ts := zoneTransitions(zone)
+	at := ts[rapid.IntRange(0, len(ts)-1).Draw(rt, l+"ti")]
+	at = at.Add(time.Duration(rapid.IntRange(-2, 1).Draw(rt, l+"ds")) * time.Second)
+	frac := rapid.SampledFrom([]string{"", ".5", ".7", ".96", ".4999996", ".9999996", ".04", ".999", ".0000004"}).Draw(rt, l+"frac")
+	sep := rapid.SampledFrom([]string{"T", " "}).Draw(rt, l+"sep")
+	loc, _ := time.LoadLocation(zone)
+	switch rapid.IntRange(0, 3).Draw(rt, l+"as") {
+	case 0: // local time of the zone, without an offset
+		return at.In(loc).Format("2006-01-02"+sep+"15:04:05") + frac
+	case 1: // the instant, in UTC
+		return at.UTC().Format("2006-01-02"+sep+"15:04:05") + frac + rapid.SampledFrom([]string{"Z", "+00", "+00:00"}).Draw(rt, l+"z")
+	case 2: // the instant, with the offset the zone has then
+		return at.In(loc).Format("2006-01-02"+sep+"15:04:05") + frac + at.In(loc).Format("-07:00")
+	}
+	o := time.FixedZone("", rapid.SampledFrom([]int{-4 * 3600, 5*3600 + 1800, 10 * 3600, -12 * 3600, 14 * 3600, 3600}).Draw(rt, l+"off"))
+	return at.In(o).Format("2006-01-02"+sep+"15:04:05") + frac + at.In(o).Format("-07:00")
 }
 
 func pow10(n int) int {
